@@ -387,9 +387,59 @@ func runC05(c *eng.Ctx) {
 			w = q.Find()
 			ok = w == nil
 		}
+		if ok {
+			// ... and no successful return of setupIndex is taken before that comparison was made (an early `return nil` for
+			// an empty index skips exactly the case of a crash during the first append to a fresh segment)
+			compared := append(append([]eng.Edge{}, ahead...), eng.CmpEdges(fn, eng.Load(posF, nil), end, eng.LE)...)
+			for _, r := range eng.Returns(fn) {
+				rv := eng.RetVals(r)
+				if len(rv) == 1 && eng.NilConst(rv[0]) {
+					if g, wr := eng.GuardedBy(fn, r, compared); !g {
+						ok, w = false, wr
+					}
+				}
+			}
+		}
 		c.Check(ok, "a log that is ahead of its index is repaired when the segment is opened", p.Pos(fn.Pos()), "position > end of the last indexed message set ⇒ rebuildIndex / truncate before the segment is used", "setupIndex never compares the log's size with the end of the last indexed message set (or can succeed without repairing, path "+w.String()+"): after a crash between the log write and the index write of an append, the next append re-uses the orphan's offset and readers that walk the segment deliver the never-completed message and the acknowledged one under the same offset")
 	}
-	c.Floor(1)
+	// a replacement segment (.cleaned / .truncated) starts from nothing: both files a crashed attempt left behind are removed
+	if fn := c.Fn(cl + "(*segment).newReplacement"); fn != nil {
+		removed := map[string]bool{}
+		record := func(v ssa.Value) {
+			if call, isCall := eng.Strip(v).(*ssa.Call); isCall {
+				switch eng.CalleeRef(&call.Call) {
+				case cl + "segment.logPath":
+					removed["log"] = true
+				case cl + "segment.indexPath":
+					removed["index"] = true
+				}
+			}
+		}
+		for _, rm := range eng.CallsIn(fn, "os.Remove") {
+			a := rm.Common().Args[0]
+			record(a)
+			if ia := indexOfLoad(a); ia != nil {
+				// element of a slice literal that is ranged over
+				base := ia.X
+				if sl, isSl := base.(*ssa.Slice); isSl {
+					base = sl.X
+				}
+				if al, isAl := base.(*ssa.Alloc); isAl && al.Referrers() != nil {
+					for _, r := range *al.Referrers() {
+						if ea, isEA := r.(*ssa.IndexAddr); isEA && ea.Referrers() != nil {
+							for _, rr := range *ea.Referrers() {
+								if st, isSt := rr.(*ssa.Store); isSt {
+									record(st.Val)
+								}
+							}
+						}
+					}
+				}
+			}
+		}
+		c.Check(removed["log"] && removed["index"], "a replacement segment starts without leftovers", p.Pos(fn.Pos()), "stale <base>.log.<suffix> and <base>.index.<suffix> are both removed before the replacement is created", "newReplacement does not remove both files a crashed clean / truncate left behind: the next attempt adopts stale index entries (or stale log bytes) and writes the real ones behind them — duplicated offsets on disk after the rewrite after next")
+	}
+	c.Floor(2)
 
 	// ---- R05.7 crash-safe ordering of destructive steps
 	c.Rule("R05.7", "K2")
